@@ -4,7 +4,6 @@ import (
 	"bytes"
 	"fmt"
 	"math"
-	"regexp"
 	"strings"
 
 	simdjson "github.com/minio/simdjson-go"
@@ -19,16 +18,40 @@ func init() { register("C10", runC10, replayC10) }
 
 var c10Arr simdjson.Array
 
-var negZeroTok = regexp.MustCompile(`(^|[\[,:])-0([,\]}]|$)`)
-
+// stripNegZero rewrites every number token that is exactly -0 to 0, outside strings.
 func stripNegZero(t []byte) []byte {
-	for {
-		n := negZeroTok.ReplaceAll(t, []byte("${1}0${2}"))
-		if bytes.Equal(n, t) {
-			return n
+	out := make([]byte, 0, len(t))
+	inStr := false
+	for i := 0; i < len(t); i++ {
+		c := t[i]
+		if inStr {
+			out = append(out, c)
+			if c == '\\' && i+1 < len(t) {
+				i++
+				out = append(out, t[i])
+			} else if c == '"' {
+				inStr = false
+			}
+			continue
 		}
-		t = n
+		if c == '"' {
+			inStr = true
+		}
+		if c == '-' && i+1 < len(t) && t[i+1] == '0' {
+			end := i+2 >= len(t)
+			if !end {
+				switch t[i+2] {
+				case ',', ']', '}', '\n', ' ', '\t', '\r':
+					end = true
+				}
+			}
+			if end {
+				continue // drop the sign
+			}
+		}
+		out = append(out, c)
 	}
+	return out
 }
 
 // c10Marshal checks one marshalled text against the value(s) it must denote.
